@@ -632,6 +632,8 @@ structure MCons where
   late : Bool               -- attached after the remote had sent `linked` or `synced`
   phase : Phase := .fresh
   rAlive : Bool := true
+  wAlive : Bool := true       -- the consumer still holds its command writer
+  syncOwed : Bool := false    -- asked for SYNC and no sync frame has been read from the socket since
   deriving Repr
 
 structure Mon where
@@ -831,7 +833,8 @@ def checkFrames (m : Mon) (o : ObsIn) : Mon × Option String :=
         ({ m with frames := m.frames + 1 }, if m.frames == 0 then none else some "second-link-frame")
       else if m.frames == 0 then (m, some "first-frame-not-link")
       else if t == "sync" then
-        ({ m with frames := m.frames + 1, syncGot := m.syncGot + 1 },
+        ({ m with frames := m.frames + 1, syncGot := m.syncGot + 1,
+                  cons := m.cons.map fun c => { c with syncOwed := false } },
          if m.syncGot < m.syncAsked then none else some "sync-not-requested")
       else match frameCmd m.issued t with
         | none => (m, some "command-not-issued")
@@ -859,7 +862,7 @@ def Mon.step (m : Mon) (op out : String) : Mon × Option String :=
       -- session grammar of every consumer
       let m0 : Mon := match ws with
         | ["attach", s, _] =>
-          { m with cons := m.cons ++ [{ sync := s == "1", late := m.leftInit }],
+          { m with cons := m.cons ++ [{ sync := s == "1", late := m.leftInit, syncOwed := s == "1" }],
                    syncAsked := m.syncAsked + (if s == "1" then 1 else 0) }
         | _ => m
       match m0.advance o with
@@ -924,17 +927,23 @@ def Mon.step (m : Mon) (op out : String) : Mon × Option String :=
           -- quiescent point: nothing left in flight while the link is up ⇒ the lane has seen the effect of everything
           let fold : Option String :=
             if o.read == some 0 && k > 0 && !m2.closing && !o.sockEof && m2.frames > 0 then
-              (if sameState (foldCmds m2.got) (foldCmds m2.issued) then none
-               else some "lane-state-differs-from-fold-of-issued")
+              (if !sameState (foldCmds m2.got) (foldCmds m2.issued) then some "lane-state-differs-from-fold-of-issued"
+               else if m2.cons.any (fun c => c.sync && c.wAlive && c.syncOwed) then some "sync-frame-not-sent-for-sync-consumer"
+               else none)
             else none
           (m2, quiet <|> bound <|> fold <|> doneCheck)
         | ["drop", c] | ["dropr", c] =>
           let c := c.toNat?.getD 0
           let cons2 := (List.range m2.cons.length).filterMap fun i =>
-                (m2.cons[i]?).map fun x => if i == c then { x with rAlive := false } else x
+                (m2.cons[i]?).map fun x =>
+                  if i == c then { x with rAlive := false, wAlive := x.wAlive && ws.head? != some "drop" } else x
           ({ m2 with cons := cons2 },
            checkQuiet m0 o <|> (if o.done then checkClosed cons2 "consumer-not-unlinked-at-exit" else none))
-        | ["dropw", _] => (m2, checkQuiet m0 o <|> doneCheck)
+        | ["dropw", c] =>
+          let c := c.toNat?.getD 0
+          ({ m2 with cons := (List.range m2.cons.length).filterMap fun i =>
+                (m2.cons[i]?).map fun x => if i == c then { x with wAlive := false } else x },
+           checkQuiet m0 o <|> doneCheck)
         | _ => (m2, some "unparsable")
 
 end SwimVerif.DL
